@@ -49,27 +49,29 @@ def octalMore (buf : Buf) : Nat → Nat → Nat → Out (Nat × Nat)
 def skipIf (buf : Buf) (pos : Nat) (b : UInt8) : Nat :=
   if buf[pos]? == some b then pos + 1 else pos
 
-/-- `StringLexer::next_lexeme`: `(Some(byte) | None, pos, nested)` -/
+/-- the one-character escapes of `next_lexeme`: `\n \r \t \b \f \( \) \\` -/
+def namedEsc (c : UInt8) : Option UInt8 :=
+  if c == 110 then some 10 else if c == 114 then some 13 else if c == 116 then some 9
+  else if c == 98 then some 8 else if c == 102 then some 12 else if c == 40 then some 40
+  else if c == 41 then some 41 else if c == 92 then some 92 else none
+
+/-- `StringLexer::next_lexeme`: `(Some(byte) | None, pos, nested)`.
+    (The arms of the Rust `match` are disjoint constants, so the named escapes are grouped in `namedEsc`.) -/
 def nextLexeme (buf : Buf) : Nat → Nat → Int → Out (Option UInt8 × Nat × Int)
   | 0, _, _ => .oof
   | fuel + 1, pos, nested =>
     (nextByte buf pos).bind fun (c, pos) =>
     if c == 92 then
       (nextByte buf pos).bind fun (c, pos) =>
-      if c == 110 then .ok (some 10, pos, nested)
-      else if c == 114 then .ok (some 13, pos, nested)
-      else if c == 116 then .ok (some 9, pos, nested)
-      else if c == 98 then .ok (some 8, pos, nested)
-      else if c == 102 then .ok (some 12, pos, nested)
-      else if c == 40 then .ok (some 40, pos, nested)
-      else if c == 41 then .ok (some 41, pos, nested)
-      else if c == 10 then nextLexeme buf fuel pos nested
-      else if c == 13 then nextLexeme buf fuel (skipIf buf pos 10) nested
-      else if c == 92 then .ok (some 92, pos, nested)
-      else if isOctal c then
-        (octalMore buf 2 (c.toNat - 48) pos).bind fun (code, pos) =>
-        .ok (some (UInt8.ofNat (code % 256)), pos, nested)
-      else .ok (some c, pos, nested)
+      match namedEsc c with
+      | some v => .ok (some v, pos, nested)
+      | none =>
+        if c == 10 then nextLexeme buf fuel pos nested
+        else if c == 13 then nextLexeme buf fuel (skipIf buf pos 10) nested
+        else if isOctal c then
+          (octalMore buf 2 (c.toNat - 48) pos).bind fun (code, pos) =>
+          .ok (some (UInt8.ofNat (code % 256)), pos, nested)
+        else .ok (some c, pos, nested)
     else if c == 40 then
       if nested + 1 > 2147483647 then .panic else .ok (some 40, pos, nested + 1)
     else if c == 41 then
